@@ -204,41 +204,93 @@ func c16CrewNotCopied(c *Ctx, rule string) {
 // Timers.changed (which records the timers machine's state as changed).  A timer that fired and left the map without
 // that call stays in the store, and a crew rebuilt from the store fires it again.
 func c15TimersChangeReported(c *Ctx, rule string) {
-	changed := c.P.Func("sio", "Timers", "changed")
-	if changed == nil {
-		c.R.Break(rule + ": sio.(*Timers).changed not found")
+	// the report as a construct: the State of the change-cache entry for the timers machine (key TimersMachine)
+	// receives the timers' state (a result of Timers.State).  The helper Timers.changed, where it exists, is just one
+	// function that does this on every way from its entry.
+	var tmKey types.Object
+	if sp := c.P.ByPath[prog.Abs("sio")]; sp != nil && sp.Types != nil {
+		tmKey = sp.Types.Scope().Lookup("TimersMachine")
+	}
+	tState := c.P.Func("sio", "Timers", "State")
+	if tmKey == nil || tState == nil {
+		c.R.Break(rule + ": sio.TimersMachine / sio.(*Timers).State not found")
 		return
 	}
 	var all []*ssa.Function
 	for _, f := range c.P.FuncsIn("sio") {
 		all = append(all, ssau.WithAnon(f)...)
 	}
-	// a helper that always reports (on every way from its entry it calls changed, itself or through such a helper)
+	isReportStore := func(in ssa.Instruction) bool {
+		st, ok := in.(*ssa.Store)
+		if !ok || !ssau.IsField(st.Addr, prog.Abs("sio"), "Changed", "State") {
+			return false
+		}
+		_, _, base, _ := ssau.FieldOf(st.Addr)
+		k, isRec := changeRecordKey(base, 0)
+		if !isRec {
+			return false
+		}
+		// the key: the package's TimersMachine (a variable: a load of the global; were it a constant: its value)
+		switch kx := k.(type) {
+		case *ssa.UnOp:
+			gl, isG := kx.X.(*ssa.Global)
+			if !isG || kx.Op.String() != "*" || gl.Object() != tmKey {
+				return false
+			}
+		case *ssa.Const:
+			kc, isC := tmKey.(*types.Const)
+			if !isC || kx.Value == nil || kx.Value.ExactString() != kc.Val().ExactString() {
+				return false
+			}
+		default:
+			return false
+		}
+		cl, isCall := st.Val.(*ssa.Call)
+		return isCall && cl.Common().StaticCallee() == tState
+	}
+	// a helper that always reports (on every way from its entry it makes the report, itself or through such a helper)
+	alwaysMemo := map[*ssa.Function]bool{}
 	var always func(h *ssa.Function, depth int) bool
 	always = func(h *ssa.Function, depth int) bool {
 		if h == nil || h.Blocks == nil || depth > 3 || prog.PkgOf(h) != "sio" {
 			return false
 		}
+		if v, ok := alwaysMemo[h]; ok {
+			return v
+		}
 		pd := flow.NewPostDom(h)
 		res := false
 		ssau.Instrs(h, func(in2 ssa.Instruction) {
-			c2, ok2 := in2.(*ssa.Call)
-			if !ok2 || res || !pd.PostDominates(in2.Block(), h.Blocks[0]) {
+			if res || in2.Parent() != h || !(in2.Block() == h.Blocks[0] || pd.PostDominates(in2.Block(), h.Blocks[0])) {
 				return
 			}
-			if sc := c2.Common().StaticCallee(); sc == changed || (sc != nil && sc != h && always(sc, depth+1)) {
+			if isReportStore(in2) {
+				res = true
+				return
+			}
+			c2, ok2 := in2.(*ssa.Call)
+			if !ok2 {
+				return
+			}
+			if sc := c2.Common().StaticCallee(); sc != nil && sc != h && always(sc, depth+1) {
 				res = true
 			}
 		})
+		if depth == 0 {
+			alwaysMemo[h] = res
+		}
 		return res
 	}
 	reports := func(in ssa.Instruction, g *ssa.Function) bool {
+		if isReportStore(in) {
+			return true
+		}
 		ci, ok := in.(*ssa.Call)
 		if !ok {
 			return false
 		}
 		h := ci.Common().StaticCallee()
-		return h == changed || (h != nil && h != g && always(h, 0))
+		return h != nil && h != g && always(h, 0)
 	}
 	// reportedAfter: every fact-consistent way on from instruction `at` of g (the facts fs hold there) passes a report;
 	// where a way leaves g without one, the obligation goes to the callers of g: the ways that leave g unreported imply
@@ -402,21 +454,14 @@ func c15TimersChangeReported(c *Ctx, rule string) {
 	}
 	n := 0
 	for _, g := range all {
-		if g == changed {
-			continue
-		}
 		var calls []*ssa.BasicBlock
 		ssau.Instrs(g, func(in ssa.Instruction) {
 			if in.Parent() != g {
 				return
 			}
-			if ci, ok := in.(ssa.CallInstruction); ok {
-				if ci.Common().StaticCallee() == changed {
-					calls = append(calls, in.Block())
-				} else if h := ci.Common().StaticCallee(); h != nil && prog.PkgOf(h) == "sio" && h != g && always(h, 0) {
-					// a helper that always reports
-					calls = append(calls, in.Block())
-				}
+			if reports(in, g) {
+				// the report itself, or a helper that always reports
+				calls = append(calls, in.Block())
 			}
 		})
 		ssau.Instrs(g, func(in ssa.Instruction) {
